@@ -57,6 +57,10 @@ def draw_matrix(sim: Sim, rows: int, cols: int, special: bool) -> np.ndarray:
         m = rng.normal(0, 1, (rows, cols)).astype(np.float32)
     else:
         m = rng.normal(0, 1e3, (rows, cols))
+    if m.dtype == np.float64 and rows > 1 and sim.flip(1, 5, "placeholder-rows"):
+        # rows the search could not reach keep its placeholder: every entry -1
+        for r_ in range(rows - 1 - sim.choose(min(3, rows - 1), "n-placeholder-rows"), rows):
+            m[r_, :] = -1.0
     if special and m.dtype == np.float64:
         specials = [np.nan, np.inf, -np.inf, 1e308, -0.0, 5e-324, -1.0]
         for _ in range(sim.choose(4, "n-special")):
